@@ -115,6 +115,11 @@ Edits(nb) ==
   \cup
   { <<[a |-> "Delete", pos |-> i], WithCells(RemoveAt(nb.cells, i))>> : i \in 1..n }
   \cup
+  \* replace a cell by a short run of new cells (removal + insertion at one position)
+  { <<[a |-> "Replace", pos |-> i, run |-> ri],
+      WithCells(SubSeq(nb.cells, 1, i - 1) \o RunCells(Runs[ri]) \o SubSeq(nb.cells, i + 1, n))>> :
+      i \in 1..n, ri \in {q \in 1..3 : RunCids(Runs[q]) \cap CidsOf(nb) = {}} }
+  \cup
   \* insert a run of several new cells at one position (concurrent insertion of runs of
   \* different length whose tails are similar is the interesting case for the merger)
   { <<[a |-> "InsertRun", pos |-> p, run |-> ri],
